@@ -173,7 +173,7 @@ fn run(prop: &str, tier: Tier, replay: Option<String>) -> i32 {
             level: "model_checking",
             tier,
             bounds,
-            wall_cap: Duration::from_secs(if tier == Tier::Quick { 25 } else { 1200 }),
+            wall_cap: Duration::from_secs(if tier == Tier::Quick { 45 } else { 1200 }),
             rule: "every execution of the real tarpc code (client dispatch + callers, or server channel + request stream + gated handlers) under the harness-owned scheduler/transport/clock, for every listed configuration, with at most `bound_completed` deviations from the canonical schedule; distinct_nontrivial counts distinct trace hashes among executions in which the property's antecedent occurred".into(),
             assumptions: vec![
                 "tokio mpsc/oneshot, futures Abortable and tokio-util DelayQueue internals are trusted".into(),
